@@ -42,7 +42,9 @@ RULE = ("cases = (a) module lists (the names ssh.connect packages plus extra and
         "(f) whole session starts (real connect -> transport -> real assembler -> main's arguments bound by the real "
         "server.main signature) where every option takes every falsy value (False, 0, None, '', []) and all-falsy sets, "
         "over the posix socket transport and the win32 pipe transport (real SocketRWShim threads, child stdin accepting "
-        "1 / 1000 / 4096 bytes per write, whole writes as control); several sessions opened by one process (the same "
+        "1 / 1000 / 4096 bytes per write, whole writes as control); module sources of 0, 1, 64 KiB +-1, 1 MiB +-1 and "
+        "several MiB, highly compressible and incompressible, each required to arrive byte for byte with the later "
+        "modules and the options intact; several sessions opened by one process (the same "
         "options twice, different options, both transports), each upload decoded on its own; "
         "non-trivial = a read crossed a segment boundary, an error branch was taken, or a trace was decided; "
         "distinct = distinct canonical model input")
@@ -1452,8 +1454,8 @@ def session_problems(case, obs, r):
     disk = {n: file_bytes(obs['paths'].get(n)) for n in obs['asked_all'] if obs['paths'].get(n)}
     out = []
     if r['asm'] != disk.get('sshuttle.assembler'):
-        out.append(('C18:session:upload-corrupted', 'assembler source ' + sum_of(disk.get('sshuttle.assembler', b'')),
-                    sum_of(r['asm'])))
+        out.append(('C18:session:upload-corrupted', 'assembler source ' + desc(disk.get('sshuttle.assembler', b'')),
+                    desc(r['asm'])))
         return out
     want = packaged_names()
     got = r['compiled']
@@ -1462,9 +1464,9 @@ def session_problems(case, obs, r):
         return out
     for n, have in got:
         if n in disk and have != disk[n]:
-            out.append(('C18:session:upload-corrupted', dict(module=n, file=sum_of(disk[n])), sum_of(have)))
+            out.append(('C18:session:upload-corrupted', dict(module=n, file=desc(disk[n])), desc(have)))
     if r['rest'] != b'':
-        out.append(('C18:session:upload-corrupted', 'nothing after the terminator', sum_of(r['rest'])))
+        out.append(('C18:session:upload-corrupted', 'nothing after the terminator', desc(r['rest'])))
     kind, ent = entered_with(r['main_args'])
     bad = binding_problem(opts, kind, ent)
     if bad:
@@ -1472,16 +1474,48 @@ def session_problems(case, obs, r):
     return out
 
 
+def sized_source(kind, n, seed):
+    """module source of exactly `n` bytes, a function of (kind, n, seed) alone: 'rep' is highly compressible
+    text, 'rnd' is incompressible bytes"""
+    import random as _random
+    if kind == 'rnd':
+        return _random.Random(seed).randbytes(n)
+    line = b'# %08d sshuttle sshuttle sshuttle sshuttle sshuttle sshuttle sshuttle\n' % (seed % 10 ** 8)
+    return (line * (n // len(line) + 1))[:n]
+
+
+def files_json(case):
+    gen = case.get('gen') or {}
+    return {n: ('gen:%s:%d:%d' % tuple(gen[n]) if n in gen else hexb(d)) for n, d in case['files'].items()}
+
+
+def files_unjson(files):
+    out = {}
+    for n, d in files.items():
+        if d.startswith('gen:'):
+            _g, kind, size, seed = d.split(':')
+            out[n] = sized_source(kind, int(size), int(seed))
+        else:
+            out[n] = common.unhex(d)
+    return out
+
+
+def desc(b):
+    b = bytes(b)
+    return sum_of(b) if len(b) <= 100000 else '%d:sha1=%s' % (len(b), hashlib.sha1(b).hexdigest()[:16])
+
+
 def session_case_json(case):
-    return dict(case, stream='session', files={n: hexb(d) for n, d in case['files'].items()},
-                options=[[k, v] for k, v in case['options']])
+    c = dict(case, stream='session', files=files_json(case), options=[[k, v] for k, v in case['options']])
+    c.pop('gen', None)
+    return c
 
 
 def session_case(ctx, case, scratch, log, seen):
     obs, r = run_session(case, scratch)
     ctx.count()
     ctx.hist('session:%s%s' % (case['transport'], '' if case['transport'] == 'posix' else ':limit=%s' % case.get('limit')))
-    if r is not None and not r['end'].startswith(('crashed', 'asmBroken')):
+    if r is not None and not r['end'].startswith(('crashed', 'asmBroken')) and len(obs['stream']) <= 300000:
         log.add(boot_line(obs['nasm'], [], r, obs['stream']), boot_out(r))
         log.nontrivial = True
     if r is not None and r['end'] == 'done':
@@ -1560,6 +1594,30 @@ def session_cases(ctx, rng, scratch, names, okeys, logs):
                 files[n] = gen_source(rng, rng.choice(['small-py', 'mixed', 'crlf', 'utf8', 'one', 'bom', 'latin1-coding']), False)
         return files       # names not listed are read from the working tree itself (the real sources)
     lg = Log('session')
+    # module sources across orders of magnitude, compressible and incompressible, around the 64 KiB and 1 MiB marks
+    blobs = [n for n in names if n not in ('sshuttle.cmdline_options', 'sshuttle.server')]
+    K64, M1 = 1 << 16, 1 << 20
+    sweeps = [[('rep', M1 + 1), ('rep', 1), ('rep', 0), ('rnd', K64 + 1)],
+              [('rnd', M1), ('rep', M1 - 1), ('rep', K64 - 1), ('rnd', 1)],
+              [('rep', 3 * M1 + 17), ('rnd', K64), ('rep', K64), ('rnd', 0)]]
+    if ctx.thorough:
+        sweeps += [[('rnd', M1 + 1), ('rnd', M1 - 1), ('rep', M1), ('rep', 2 * M1)],
+                   [('rnd', 5 * M1 + 3), ('rep', 7), ('rnd', 4096), ('rep', 4 * M1)],
+                   [('rep', M1 + 4096), ('rep', M1 + 4096), ('rnd', 2 * M1 + 1), ('rnd', 255)]]
+    for sweep in sweeps * ctx.boost:
+        order = list(blobs)
+        rng.shuffle(order)
+        gen = {n: (k, size, rng.randrange(1 << 30)) for n, (k, size) in zip(order, sweep)}
+        files = {n: sized_source(*g) for n, g in gen.items()}
+        files['sshuttle.server'] = SERVER_STANDIN
+        for n in blobs:
+            files.setdefault(n, b'# %s\n' % n.encode())
+        for k, size in sweep:
+            ctx.hist('size:%s:%s' % (k, '0' if size == 0 else '1' if size == 1 else '~64K' if size < 200000 else
+                                     '~1M' if size < M1 + 5000 else '>1M'))
+        session_case(ctx, dict(files=files, gen=gen, options=distinct_options(rng, okeys), transport='posix', limit=None,
+                               policy=rng.choice([4096, 'all', 'rand']), bufsize=rng.choice([8192, 1 << 17]),
+                               size_seed=rng.randrange(1 << 30)), scratch, lg, seen)
     sets = falsy_option_sets(rng, okeys)
     for i, opts in enumerate(sets):
         tr = 'win32' if i % 6 == 5 else 'posix'
@@ -1925,7 +1983,7 @@ def replay(ctx, rep):
             res = e2e_oracle(c, run_e2e(c, scratch))
             return bool(res), '; '.join('%s expected %s observed %s' % r for r in res)[:400] or 'remote modules equal the client files'
         if st == 'sessions':
-            cs = [dict(c, files={n: common.unhex(d) for n, d in c['files'].items()}, options=[tuple(o) for o in c['options']])
+            cs = [dict(c, files=files_unjson(c['files']), options=[tuple(o) for o in c['options']])
                   for c in case['sessions']]
             res = sessions_problems(cs, scratch)
             return bool(res), '; '.join('session #%d: %s: %s' % (i + 1, k, str(o)[:140]) for i, k, _e, o in res) or \
@@ -1942,7 +2000,7 @@ def replay(ctx, rep):
             main_check(ctx, case, ev, outcome, got, lg)
             return bool(ctx.violations), 'trace: %s' % lg.outs[0][:300]
         if st == 'session':
-            c = dict(case, files={n: common.unhex(d) for n, d in case['files'].items()}, options=[tuple(o) for o in case['options']])
+            c = dict(case, files=files_unjson(case['files']), options=[tuple(o) for o in case['options']])
             res = [(k, e, o) for _i, k, e, o in sessions_problems([c, c], scratch)]
             return bool(res), '; '.join('%s: %s' % (k, str(o)[:160]) for k, _e, o in res) or \
                 'the modules compiled remotely equal the client files and server.main is entered with the client\'s values'
